@@ -350,11 +350,10 @@ class Grammar:
 
         starting_symbol = self.starting_symbol
         get_gengy(starting_symbol)["weight"] = weights[starting_symbol]
-        nodes = list()
-        for node in self.considered_subtypes:
-            if node in weights:
-                get_gengy(node)["weight"] = weights[node]
-            nodes.append(node)
+        nodes = list(self.considered_subtypes)
+        for node in weights:
+            # every symbol of the grammar, also those discovered through subclasses or field types
+            get_gengy(node)["weight"] = weights[node]
         self.__init__(starting_symbol, nodes, self.expansion_depthing)
         self.register_type(starting_symbol)
         self.preprocess()
@@ -470,6 +469,6 @@ def extract_grammar(
     g = Grammar(starting_symbol, considered_subtypes, expansion_depthing)
     g.register_type(starting_symbol)
     g.preprocess()
-    if any(["weight" in get_gengy(p) for p in considered_subtypes]):
+    if any(["weight" in get_gengy(p) for p in [*considered_subtypes, *g.all_nodes]]):
         g.update_weights(1, g.get_weights())
     return g
